@@ -6,8 +6,8 @@
 //   * dropping a stream flushes its buffer but DISCARDS the result: a stream dropped with
 //     unflushed bytes may silently lose them.
 // VComp keeps a ghost log of the streams created: (name, id); ids are positions in the log.
-pub struct VComp { pub log: Ghost<Seq<(Seq<char>, int)>> }
-pub struct VStream { pub id: Ghost<int>, pub data: Ghost<Seq<u8>>, pub flushed: Ghost<int> }
+pub struct VComp { pub log: Ghost<Seq<(Seq<char>, int)>>, pub names: Ghost<Set<Seq<char>>> }
+pub struct VStream { pub id: Ghost<int>, pub data: Ghost<Seq<u8>>, pub flushed: Ghost<int>, pub created: Ghost<bool> }
 
 // "the stream with this id was completed": everything written to it was flushed successfully
 // before it was dropped.  A timeless predicate over ids: an id is handed out once and its stream
@@ -23,17 +23,44 @@ impl VPath for &String { open spec fn text(&self) -> Seq<char> { (*self)@ } }
 
 impl VComp {
     pub closed spec fn log(&self) -> Seq<(Seq<char>, int)> { self.log@ }
+    // the names of the streams in the root storage
+    pub closed spec fn names(&self) -> Set<Seq<char>> { self.names@ }
+
+    #[verifier::external_body]
+    pub fn is_stream<P: VPath>(&self, p: P) -> (r: bool)
+        ensures r == self.names().contains(p.text())
+    { unimplemented!() }
+
+    // opening an existing stream changes nothing in the directory
+    #[verifier::external_body]
+    pub fn open_stream<P: VPath>(&mut self, p: P) -> (r: std::io::Result<VStream>)
+        ensures
+            final(self).log() == old(self).log(),
+            final(self).names() == old(self).names(),
+            r is Ok ==> old(self).names().contains(p.text()) && !r->Ok_0.fresh(),
+    { unimplemented!() }
+
+    // removing a stream: on success exactly that name disappears (on an I/O error nothing is
+    // promised about the directory)
+    #[verifier::external_body]
+    pub fn remove_stream<P: VPath>(&mut self, p: P) -> (r: std::io::Result<()>)
+        ensures
+            final(self).log() == old(self).log(),
+            r is Ok ==> final(self).names() == old(self).names().remove(p.text()),
+    { unimplemented!() }
 
     #[verifier::external_body]
     pub fn create_stream<P: VPath>(&mut self, p: P) -> (r: std::io::Result<VStream>)
         ensures
             r is Ok ==> final(self).log() == old(self).log().push((p.text(), r->Ok_0.sid()))
-                && r->Ok_0.sid() == old(self).log().len() && r->Ok_0.clean(),
+                && r->Ok_0.sid() == old(self).log().len() && r->Ok_0.clean() && r->Ok_0.fresh(),
             // (the same, spelled out so that the facts about earlier entries propagate by themselves)
             r is Ok ==> final(self).log().len() == old(self).log().len() + 1
                 && final(self).log()[old(self).log().len() as int] == (p.text(), r->Ok_0.sid())
                 && (forall|i: int| 0 <= i < old(self).log().len() ==> final(self).log()[i] == #[trigger] old(self).log()[i]),
             r is Err ==> final(self).log() == old(self).log(),
+            // on success the name exists (created, or truncated if it existed)
+            r is Ok ==> final(self).names() == old(self).names().insert(p.text()),
     { unimplemented!() }
 }
 
@@ -45,12 +72,16 @@ impl VComp {
     pub fn flush(&mut self) -> (r: std::io::Result<()>)
         ensures
             final(self).log() == old(self).log(),
+            final(self).names() == old(self).names(),
             r is Ok ==> final(self).medium_flushed(),
     { unimplemented!() }
 }
 
 impl VStream {
     pub closed spec fn sid(&self) -> int { self.id@ }
+    // the stream was handed out by create_stream: it starts EMPTY (an existing stream of that
+    // name was truncated); a stream from open_stream keeps its old content
+    pub closed spec fn fresh(&self) -> bool { self.created@ }
     // nothing accepted by the stream is still unflushed
     pub closed spec fn clean(&self) -> bool { self.flushed@ == self.data@.len() }
 
